@@ -22,9 +22,10 @@ import (
 
 // Named curves.
 const (
-	CurveP256 = 23
-	CurveP384 = 24
-	CurveP521 = 25
+	CurveP256   = 23
+	CurveP384   = 24
+	CurveP521   = 25
+	CurveX25519 = 29
 
 	ExtSupportedGroups = 10
 	ExtECPointFormats  = 11
@@ -38,6 +39,8 @@ func curveByID(id uint16) ecdh.Curve {
 		return ecdh.P384()
 	case CurveP521:
 		return ecdh.P521()
+	case CurveX25519:
+		return ecdh.X25519()
 	}
 	return nil
 }
@@ -48,7 +51,7 @@ func ECDHEKey(id uint16, r io.Reader) (*ecdh.PrivateKey, error) {
 	if c == nil {
 		return nil, fmt.Errorf("reftls: curve %d not implemented", id)
 	}
-	n := map[uint16]int{CurveP256: 32, CurveP384: 48, CurveP521: 66}[id]
+	n := map[uint16]int{CurveP256: 32, CurveP384: 48, CurveP521: 66, CurveX25519: 32}[id]
 	for i := 0; i < 100; i++ {
 		b := randBytes(r, n)
 		if id == CurveP521 {
